@@ -96,7 +96,7 @@ pub fn check(case: &Case, obs: &mut Obs) -> Verdict {
                 return Verdict::Skipped("options not available in this feature set");
             }
             let le = o.le();
-            let mut filled = textwrap::fill(p, o.build());
+            let mut filled = o.fill(p);
             let lines: Vec<String> = filled.split(le).map(|s| s.to_string()).collect();
             let trailing = case.nums[0] == 1;
             if trailing {
